@@ -15,9 +15,9 @@ import (
 
 func init() {
 	Registry["C14"] = Spec{
-		Fn:    c14,
-		Level: "exploration",
-		Rule: "operation histories over the alphabet {append 1 B, append forcing reallocation, append 0 B, ChainWrite(empty), ChainWrite(3 B), Flush ok, Flush failing after 0 / half / all-1 bytes} enumerated exhaustively up to length 6 (quick) / 8 (thorough), plus seeded random histories up to 200 ops with sizes up to 1 MiB, each run in lock-step with a list model against a recording sink; chained caller slices are poisoned after every flush; plus WriteColumn+Flush == EncodeColumn for every catalogue column. Non-trivial = history with >=1 ChainWrite between two buffer appends and >=1 flush; distinct = history",
+		Fn:          c14,
+		Level:       "exploration",
+		Rule:        "operation histories over the alphabet {append 1 B, append forcing reallocation, append 0 B, ChainWrite(empty), ChainWrite(3 B), Flush ok, Flush failing after 0 / half / all-1 bytes} enumerated exhaustively up to length 6 (quick) / 8 (thorough), plus seeded random histories up to 200 ops with sizes up to 1 MiB, each run in lock-step with a list model against a recording sink; chained caller slices are poisoned after every flush; plus WriteColumn+Flush == EncodeColumn for every catalogue column. Non-trivial = history with >=1 ChainWrite between two buffer appends and >=1 flush; distinct = history",
 		Assumptions: []string{"sink writers are plain io.Writers (net.Buffers.WriteTo falls back to sequential Write calls)"},
 		MinDistinct: 1000,
 		Exhaustive:  func(tier string) bool { return true },
